@@ -37,22 +37,37 @@ func permClass(err error) bool {
 	return err != nil && errors.Is(err, fs.ErrPermission)
 }
 
+// subDirs are the directories given to Sub (via-1 indexes it): a plain
+// directory, the root itself, an unclean spelling and a relative spelling.
+var subDirs = []string{"/w", "/", "/w/a/..", ".", "/w/a"}
+
+// NumVia is 1 + len(subDirs): via==0 is the RoFS itself.
+const NumVia = 6
+
 // view returns the file system under test: the RoFS itself (via==0), or the
-// file system obtained from it with Sub("/w") (via==1; operands are re-rooted).
+// file system obtained from it with Sub(subDirs[via-1]); operands are re-rooted.
 func view(ro avfs.VFS, via int) (avfs.VFS, func(string) string) {
 	if via == 0 {
 		return ro, func(p string) string { return p }
 	}
-	s, err := ro.Sub("/w")
+	dir := subDirs[via-1]
+	s, err := ro.Sub(dir)
 	if err != nil {
 		sym.Cut("Sub not available")
 	}
+	root := "/w"
+	switch dir {
+	case "/", ".":
+		return s, func(p string) string { return p }
+	case "/w/a":
+		root = "/w/a"
+	}
 	return s, func(p string) string {
-		if len(p) >= 2 && p[:2] == "/w" {
-			if len(p) == 2 {
+		if len(p) >= len(root) && p[:len(root)] == root && (len(p) == len(root) || p[len(root)] == '/') {
+			if len(p) == len(root) {
 				return "/"
 			}
-			return p[2:]
+			return p[len(root):]
 		}
 		return "/nonexistent" + p
 	}
@@ -66,7 +81,7 @@ func HMutate(kind, seed, via, m int) {
 	if seed == 3 && !base.HasFeature(avfs.FeatSymlink) {
 		return
 	}
-	if via == 1 && !base.HasFeature(avfs.FeatSubFS) {
+	if via >= 1 && !base.HasFeature(avfs.FeatSubFS) {
 		return
 	}
 	hx.Seed(base, seed)
@@ -77,8 +92,8 @@ func HMutate(kind, seed, via, m int) {
 	p := tr(operands[pi])
 	q := tr("/w/new")
 	label := hx.KindName(kind) + "|" + name + "|" + operandKinds[pi]
-	if via == 1 {
-		label += "|via-Sub"
+	if via >= 1 {
+		label += "|via-Sub(" + subDirs[via-1] + ")"
 	}
 	sym.Label(label)
 	before := hx.Snapshot(base, "/", true)
@@ -154,7 +169,7 @@ const NumFileMutators = 7
 // HFile: handle methods after Open through the RoFS (file and directory handles).
 func HFile(kind, seed, via, m int) {
 	base := hx.NewBase(kind)
-	if via == 1 && !base.HasFeature(avfs.FeatSubFS) {
+	if via >= 1 && !base.HasFeature(avfs.FeatSubFS) {
 		return
 	}
 	if seed == 3 && !base.HasFeature(avfs.FeatSymlink) {
@@ -167,8 +182,8 @@ func HFile(kind, seed, via, m int) {
 	pi := sym.Choose("p", 2) // file or directory
 	p := tr(operands[pi])
 	label := hx.KindName(kind) + "|File." + name + "|" + operandKinds[pi]
-	if via == 1 {
-		label += "|via-Sub"
+	if via >= 1 {
+		label += "|via-Sub(" + subDirs[via-1] + ")"
 	}
 	sym.Label(label)
 	f, oerr := v.Open(p)
